@@ -89,6 +89,10 @@ struct CancelTwin {
     /// after the (possibly cancelled) request: let go of the handle, connect again, poll
     reconnect_after: bool,
     tail: VecDeque<Step>,
+    /// the operation that follows the request is a QoS 0 publish (written straight from scratch
+    /// space, not through the outbound queue)
+    then_qos0: bool,
+    qos0_done: bool,
 }
 
 fn with_cancel(s: &Step, at: Option<usize>) -> Step {
@@ -188,6 +192,12 @@ impl Driver for CancelTwin {
                     continue;
                 }
                 3 => {
+                    if self.then_qos0 && !self.qos0_done {
+                        self.qos0_done = true;
+                        if v.has_handle {
+                            return Some(Step::Publish(PubSpec { topic: "q0".into(), payload: PayloadSpec::Fill { len: 6, tag: 0xC130, ascii: false }, qos: 0, retain: false, props: vec![], correlate: None, cancel_at: None }));
+                        }
+                    }
                     let last = v.log.ops.last().unwrap();
                     let idle = matches!((&last.outcome, last.kind), (Outcome::CallerTimeout, "poll")) && self.drain_left < 60;
                     if self.drain_left == 0 || idle || !v.has_handle || !v.is_connected {
@@ -297,7 +307,7 @@ impl Check for C13 {
         if tier == Tier::Quick { 300 } else { 3000 }
     }
     fn required_counters(&self) -> Vec<&'static str> {
-        vec!["twins_compared", "cancelled_and_survived", "cancelled_and_reissued", "requests_issued_with_pingreq_due"]
+        vec!["twins_compared", "cancelled_and_survived", "cancelled_and_reissued", "requests_issued_with_pingreq_due", "requests_followed_by_a_qos0_publish"]
     }
     fn run(&self, _workload: usize, seed: u64, _index: u64, tier: Tier, verbose: bool) -> CaseOut {
         let mut out = CaseOut::default();
@@ -347,9 +357,14 @@ impl Check for C13 {
         }
         // one disconnect request in three is followed by "drop the handle, connect again, poll"
         let reconnect_after = matches!(request, Step::Disconnect(_)) && rng.chance(1, 3);
+        // one queue-based request in four is followed by a QoS 0 publish
+        let then_qos0 = matches!(request, Step::Publish(_) | Step::Subscribe(_) | Step::Unsubscribe(_)) && rng.chance(1, 4);
+        if then_qos0 {
+            out.count("requests_followed_by_a_qos0_publish", 1);
+        }
         let polled_flag = std::cell::Cell::new(false);
         let run = |cancels: Vec<usize>| -> (RunLog, Shared, Vec<usize>) {
-            let mut d = CancelTwin { prefix: prefix.clone().into(), request: request.clone(), cancels: cancels.into(), stage: 0, drain_left: 0, reissued: false, request_ops: vec![], poll_before_reissue: false, polled_before_reissue: false, reconnect_after, tail: VecDeque::new() };
+            let mut d = CancelTwin { prefix: prefix.clone().into(), request: request.clone(), cancels: cancels.into(), stage: 0, drain_left: 0, reissued: false, request_ops: vec![], poll_before_reissue: false, polled_before_reissue: false, reconnect_after, tail: VecDeque::new(), then_qos0, qos0_done: false };
             let (log, world) = run_case(&cfg, seed, &mut d, prefix.len() + 400);
             polled_flag.set(d.polled_before_reissue);
             (log, world, d.request_ops)
@@ -806,7 +821,7 @@ fn keepalive_stalls(rng: &mut Rng, seed: u64, verbose: bool) -> CaseOut {
         let inside = bw.events.iter().filter(|e| matches!(e, Ev::GateHit { conn, offset } if bw.conns[*conn].in_pkts.iter().any(|p| p.start < *offset && *offset < p.end))).count();
         let pings = bw.conns.iter().map(|c| c.out.packets.iter().filter(|p| matches!(p.pkt, CPacket::PingReq)).count()).sum::<usize>();
         if slow {
-            let waits = bw.events.windows(2).filter(|w| matches!((&w[0], &w[1]), (Ev::Time { .. }, Ev::Io { kind: IoKind::Write, .. }))).count();
+            let waits = bw.events.iter().filter(|e| matches!(e, Ev::SlowWrite { .. })).count();
             out.count("slow_partial_writes", waits as u64);
         }
         out.count("stalls_hit", dropped_by_client as u64);
